@@ -50,6 +50,10 @@ def gen_cases(tier, seed):
         faults = rng.choice([None, None, 0.1, 0.25])
         cancel = None if rng.random() < 0.7 else [rng.choice("SD"), rng.randrange(1, 12)]
         cases.append({"cfg": cfg, "faults": faults, "cancel": cancel, "seed": seed * 1_000_003 + i, "prior": rng.choice([None, None, None, "completed", "cancelled"])})
+    for mode in ("ack", "unack"):
+        for off in (0, 4, 8):
+            for sw2 in (True, False):
+                cases.append({"t": "empty_fd", "mode": mode, "off": off, "ind": [True, True, sw2, True], "cancel": None, "cfg": {"msgs": None}})
     return cases
 
 
@@ -277,7 +281,49 @@ def expected_originating(msgs_spec):
     return None if resp else orig
 
 
+def run_empty_fd(case):
+    """A File Data PDU without payload (legal on the wire, not parsable by the dependency's unpack, so handed over as an object): it is
+    accepted like any other segment and must be indicated with length 0."""
+    from spacepackets.cfdp.pdu import FileDataPdu
+    from spacepackets.cfdp.pdu.file_data import FileDataParams
+
+    from .. import models, pdugen, prep
+
+    obs = {"empty_file_data_cases": 1}
+    cfg = {"mode": case["mode"], "closure": False, "size": 8, "seg": 4, "ind": case["ind"], "fs": "mem"}
+    with World(cfg) as w:
+        D = w.D
+        tc = prep.tx_conf(w)
+        data = w.data
+
+        def deliver(kind, raw=None, obj=None, off=0, ln=0):
+            pdu = wire.parse(raw) if raw is not None else obj
+            d = wire.describe(raw) if raw is not None else {"kind": "FD", "offset": off, "dlen": ln, "data": b"", "h": wire.hdr(bytes(pdugen.raw("FD", tc, {"offset": 0, "data": b"x"})))}
+            w.log.add("rx", "D", d=d, raw=raw)
+            try:
+                D.sm(pdu, {"kind": kind})
+            except Exception as e:  # noqa: BLE001
+                obs["empty_file_data_refused"] = 1
+            D.outbox.clear()
+
+        deliver("MD", pdugen.raw("MD", tc, {"size": 8, "cks": "crc32", "src_name": w.src_path.as_posix(), "dst_name": w.dst_req_path.as_posix()}))
+        deliver("FD", pdugen.raw("FD", tc, {"offset": 0, "data": data[0:4]}))
+        deliver("FD", obj=FileDataPdu(tc, FileDataParams(file_data=b"", offset=case["off"], segment_metadata=None)), off=case["off"], ln=0)
+        deliver("FD", pdugen.raw("FD", tc, {"offset": 4, "data": data[4:8]}))
+        deliver("EOF", pdugen.raw("EOF", tc, {"size": 8, "cksum": models.checksum("crc32", data)}))
+        for _ in range(3):
+            D.sm()
+            D.outbox.clear()
+        viol, judged = judge(w, case, obs)
+        obs["indications_judged"] = judged
+        for x in viol:
+            x["cfg"] = {"mode": case["mode"], "ind": case["ind"], "empty_file_data_at": case["off"]}
+        return {"viol": viol, "obs": obs, "sig": case, "sample": None}
+
+
 def run_case(case):
+    if case.get("t") == "empty_fd":
+        return run_empty_fd(case)
     cfg = case["cfg"]
     obs = {}
     with World(cfg) as w:
@@ -298,7 +344,10 @@ def run_case(case):
                     ic.eof_sent_indication_required, ic.eof_recv_indication_required = not cfg["ind"][0], not cfg["ind"][1]
                     ic.file_segment_recvd_indication_required, ic.transaction_finished_indication_required = not cfg["ind"][2], not cfg["ind"][3]
                 pr = Runner(w, max_expiries=30, max_rounds=2500, actions={} if case["prior"] == "completed" else {3: [("cancel", "S")]})
+                judged_msgs = w.cfg["msgs"]
+                w.cfg["msgs"] = [["orig", 77, 2, 88, 2], ["raw", "70726576"]]  # the earlier request carried its own messages to user
                 w.put()
+                w.cfg["msgs"] = judged_msgs
                 pr.run()
                 for ep in (w.S, w.D):
                     if ep.h.state.name != "IDLE":
